@@ -1283,6 +1283,7 @@ func forClauseStep(u forClauseUse, content []byte) ([]byte, string, error) {
 	var eds []textEdit
 	var bad error
 	usedLoopLabel := false
+	usedBodyLabel := false
 	var walk func(n ast.Node, loopDepth, breakDepth int)
 	walk = func(n ast.Node, loopDepth, breakDepth int) {
 		if n == nil || bad != nil {
@@ -1299,6 +1300,7 @@ func forClauseStep(u forClauseUse, content []byte) ([]byte, string, error) {
 			case token.CONTINUE:
 				if loopDepth == 0 {
 					eds = append(eds, textEdit{tf.Offset(x.Pos()), tf.Offset(x.End()), "break " + bodyL})
+					usedBodyLabel = true
 				}
 			case token.BREAK:
 				if breakDepth == 0 {
@@ -1357,7 +1359,14 @@ func forClauseStep(u forClauseUse, content []byte) ([]byte, string, error) {
 	if u.loop.Cond != nil {
 		b.WriteString(src(u.loop.Cond) + " ")
 	}
-	b.WriteString("{\n" + bodyL + ":\nswitch {\ndefault:\n" + body + "\n}\n")
+	if usedBodyLabel {
+		b.WriteString("{\n" + bodyL + ":\nswitch {\ndefault:\n" + body + "\n}\n")
+	} else if usedLoopLabel {
+		// an unlabelled break of the body now names the loop; the body can stand as it is
+		b.WriteString("{\n" + body + "\n")
+	} else {
+		b.WriteString("{\n" + body + "\n")
+	}
 	if u.loop.Post != nil {
 		b.WriteString(src(u.loop.Post) + "\n")
 	}
